@@ -336,7 +336,7 @@ class simulation_model():
         :param t:
         :return:
         \'\'\'
-        if (t - self.starttime) < offset: return initial
+        if grid_time(t - offset, self.dt, self.starttime) < self.starttime: return initial
         else: return tdelayed
 
     def counter(self,start, interval, t):
